@@ -18,7 +18,9 @@ pub fn resolve_accessor_type(
         // Get field sources from the current type (both tuples and partials)
         let sources = extract_field_sources(program, current_type_id);
 
-        if sources.is_empty() {
+        // Every variant has to be something with fields: a value that may also be an integer,
+        // a binary, a function, ... cannot be accessed.
+        if sources.is_empty() || has_non_tuple_variant(program, current_type_id) {
             return Err(Error::MemberAccessOnNonTuple {
                 target: target_name.to_string(),
             });
@@ -70,6 +72,24 @@ enum FieldSource {
     Partial {
         fields: Vec<(String, usize)>, // (field_name, type_id)
     },
+}
+
+/// Whether a value of this type may be something without fields at all.
+fn has_non_tuple_variant(program: &Program, type_id: usize) -> bool {
+    match program.lookup_type(type_id) {
+        Some(Type::Union(type_ids)) => type_ids
+            .iter()
+            .any(|&tid| has_non_tuple_variant(program, tid)),
+        Some(
+            Type::Integer
+            | Type::Binary
+            | Type::Reference
+            | Type::Callable { .. }
+            | Type::Process { .. }
+            | Type::Resource(_),
+        ) => true,
+        _ => false,
+    }
 }
 
 /// Extract field sources from a type (tuples and partials)
@@ -145,7 +165,7 @@ pub fn get_field_by_name(
 ) -> Result<(usize, Vec<usize>), Error> {
     let sources = extract_field_sources(program, type_id);
 
-    if sources.is_empty() {
+    if sources.is_empty() || has_non_tuple_variant(program, type_id) {
         return Err(Error::MemberAccessOnNonTuple {
             target: target_name.to_string(),
         });
@@ -198,7 +218,7 @@ pub fn get_field_at_index(
 ) -> Result<Vec<usize>, Error> {
     let sources = extract_field_sources(program, type_id);
 
-    if sources.is_empty() {
+    if sources.is_empty() || has_non_tuple_variant(program, type_id) {
         return Err(Error::MemberAccessOnNonTuple {
             target: target_name.to_string(),
         });
